@@ -17,6 +17,7 @@ import (
 	"sort"
 	"strconv"
 	"strings"
+	"sync/atomic"
 	"testing"
 	"testing/synctest"
 	"time"
@@ -515,9 +516,9 @@ func (rn *runner) readback() string {
 		} else {
 			sb.WriteString(" | peer: none")
 		}
-		fmt.Fprintf(&sb, " | enf: cw=%d cwmax=%d swbl=%d swbr=%d swu=%d swmax=%d mib=%d miu=%d cid=%d dg=%d idle=%d",
+		fmt.Fprintf(&sb, " | enf: cw=%d cwmax=%d swbl=%d swbr=%d swu=%d swmax=%d swmaxr=%d swmaxu=%d mib=%d miu=%d cid=%d dg=%d idle=%d",
 			enf.ConnWindow, enf.ConnWindowMax, enf.StreamWindowBidiLocal, enf.StreamWindowBidiRemote, enf.StreamWindowUni,
-			enf.StreamWindowMax, enf.MaxIncomingBidi, enf.MaxIncomingUni, enf.ConnIDLimit, b2i(enf.Datagrams),
+			enf.StreamWindowMax, enf.StreamWindowMaxBidiRemote, enf.StreamWindowMaxUni, enf.MaxIncomingBidi, enf.MaxIncomingUni, enf.ConnIDLimit, b2i(enf.Datagrams),
 			int64(enf.IdleTimeout/time.Millisecond))
 		return sb.String()
 	})
@@ -645,6 +646,136 @@ func (rn *runner) exStreamData(kind string) string {
 			return fmt.Sprintf("cli-read:%s n=%d", canonErr(err), got)
 		}
 		return fmt.Sprintf("ok n=%d", got)
+	})
+}
+
+const refillExtraMax = 64 << 10
+const refillPatience = 5 * time.Second
+
+// exRefill: the client application READS while the server sends more than the advertised stream limit on
+// one stream (the advertised value plus up to 64 KiB, within the advertised connection limit): the extra
+// bytes need the MAX_STREAM_DATA the client owes once the advertised credit is consumed.
+func (rn *runner) exRefill(kind string) string {
+	return inBubble(func() string {
+		s, fail := rn.open(10 * time.Minute)
+		if s == nil {
+			return fail
+		}
+		defer s.close()
+		key := map[string]string{"bl": "imsdbl", "br": "imsdbr", "uni": "imsdu"}[kind]
+		if kind == "br" && s.a.get("imsb") < 1 || kind == "uni" && s.a.get("imsu") < 1 {
+			return "nostream"
+		}
+		w := s.a.get(key)
+		if w < 1 {
+			return "nowindow"
+		}
+		n := w + min(w, refillExtraMax)
+		if n > s.a.get("imd") {
+			return "connbound"
+		}
+		var srvW io.WriteCloser
+		var cliR io.Reader
+		switch kind {
+		case "bl":
+			cs, err := s.cli.OpenStreamSync(s.ctx)
+			if err != nil {
+				return "cli-open:" + canonErr(err)
+			}
+			if _, err := cs.Write([]byte{1}); err != nil {
+				return "cli-write:" + canonErr(err)
+			}
+			ss, err := s.srv.AcceptStream(s.ctx)
+			if err != nil {
+				if c, bad := s.clientFailed(time.Second); bad {
+					return c
+				}
+				return "srv-accept:" + canonErr(err)
+			}
+			srvW, cliR = ss, cs
+		case "br":
+			ss, err := s.srv.OpenStream()
+			if err != nil {
+				return "srv-open:" + canonErr(err)
+			}
+			srvW = ss
+		case "uni":
+			ss, err := s.srv.OpenUniStream()
+			if err != nil {
+				return "srv-open:" + canonErr(err)
+			}
+			srvW = ss
+		default:
+			return "bad-op"
+		}
+		werr := make(chan error, 1)
+		go func() {
+			err := writeN(srvW, n)
+			if err == nil {
+				err = srvW.Close()
+			}
+			werr <- err
+		}()
+		type rres struct {
+			n   int64
+			err error
+		}
+		var got atomic.Int64
+		rdone := make(chan rres, 1)
+		go func() {
+			if cliR == nil {
+				var err error
+				if kind == "br" {
+					cliR, err = s.cli.AcceptStream(s.ctx)
+				} else {
+					cliR, err = s.cli.AcceptUniStream(s.ctx)
+				}
+				if err != nil {
+					rdone <- rres{0, err}
+					return
+				}
+			}
+			buf := make([]byte, chunk)
+			for {
+				k, err := cliR.Read(buf)
+				got.Add(int64(k))
+				if err != nil {
+					if err == io.EOF {
+						err = nil
+					}
+					rdone <- rres{got.Load(), err}
+					return
+				}
+			}
+		}()
+		// progress watchdog on the virtual clock: the transfer needs a few round trips of 20 ms
+		last, lastAt := int64(-1), time.Now()
+		for {
+			select {
+			case r := <-rdone:
+				if c, bad := s.clientFailed(500 * time.Millisecond); bad {
+					return c
+				}
+				if r.err != nil {
+					return fmt.Sprintf("cli-read:%s n=%d", canonErr(r.err), r.n)
+				}
+				if we := <-werr; we != nil {
+					return "srv-write:" + canonErr(we)
+				}
+				return fmt.Sprintf("ok n=%d", r.n)
+			case <-time.After(250 * time.Millisecond):
+			}
+			if err := connErr(s.cli); err != nil {
+				s.cancel()
+				return canonErr(err)
+			}
+			if g := got.Load(); g != last {
+				last, lastAt = g, time.Now()
+			} else if time.Since(lastAt) > refillPatience {
+				s.cancel()
+				return fmt.Sprintf("stall n=%d", g)
+			}
+		}
 	})
 }
 
@@ -995,6 +1126,59 @@ func (rn *runner) exIdle() string {
 	})
 }
 
+const idleAckDiv = 5
+const idleAckRounds = 8
+
+// exIdleAck: the CLIENT keeps sending (one byte every max_idle_timeout/5, for 1.6 timeouts) while the server
+// application only reads, so that everything the server sends is an ACK-only packet. Every packet received,
+// ack-eliciting or not, restarts the idle timer: the client must still be there at the end.
+func (rn *runner) exIdleAck() string {
+	return inBubble(func() string {
+		s, fail := rn.open(3 * serverIdle)
+		if s == nil {
+			return fail
+		}
+		defer s.close()
+		mit := time.Duration(s.a.get("mit")) * time.Millisecond
+		if mit == 0 {
+			return "noidle"
+		}
+		if mit <= idleSettle+idleMargin || mit >= serverIdle {
+			return "outofrange"
+		}
+		time.Sleep(idleSettle)
+		if err := connErr(s.cli); err != nil {
+			return canonErr(err)
+		}
+		cs, err := s.cli.OpenUniStreamSync(s.ctx)
+		if err != nil {
+			return "cli-open:" + canonErr(err)
+		}
+		go func() {
+			rs, err := s.srv.AcceptUniStream(s.ctx)
+			if err == nil {
+				io.Copy(io.Discard, rs)
+			}
+		}()
+		for i := 0; i < idleAckRounds; i++ {
+			if _, err := cs.Write([]byte{byte(i)}); err != nil {
+				if c, bad := s.clientFailed(100 * time.Millisecond); bad {
+					return c
+				}
+				return "cli-write:" + canonErr(err)
+			}
+			time.Sleep(mit / idleAckDiv)
+			if err := connErr(s.cli); err != nil {
+				return canonErr(err)
+			}
+			if err := connErr(s.srv); err != nil {
+				return "srv-closed:" + canonErr(err)
+			}
+		}
+		return "ok"
+	})
+}
+
 // ---------------------------------------------------------------- vh.Runner
 
 func (rn *runner) Exec(op string) string {
@@ -1039,6 +1223,11 @@ func (rn *runner) Exec(op string) string {
 				return "bad-op"
 			}
 			return rn.exStreamData(f[2])
+		case "refill":
+			if len(f) < 3 {
+				return "bad-op"
+			}
+			return rn.exRefill(f[2])
 		case "cdata":
 			return rn.exConnData()
 		case "streams":
@@ -1052,6 +1241,8 @@ func (rn *runner) Exec(op string) string {
 			return rn.exDatagram()
 		case "idle":
 			return rn.exIdle()
+		case "idleack":
+			return rn.exIdleAck()
 		}
 	}
 	return "bad-op"
@@ -1175,7 +1366,8 @@ func (rn *runner) mkPlan(r *vh.Rand) {
 			ed("imd", enfConn)
 		}
 	}
-	exs := []string{"ex sdata bl", "ex sdata br", "ex sdata uni", "ex cdata", "ex streams bidi", "ex streams uni", "ex cids", "ex datagram", "ex idle"}
+	exs := []string{"ex sdata bl", "ex sdata br", "ex sdata uni", "ex cdata", "ex streams bidi", "ex streams uni", "ex cids", "ex datagram", "ex idle",
+		"ex refill bl", "ex refill br", "ex refill uni", "ex idleack"}
 	for i := len(exs) - 1; i > 0; i-- {
 		j := r.Intn(i + 1)
 		exs[i], exs[j] = exs[j], exs[i]
